@@ -234,6 +234,7 @@ def build(scn, ctx, result_factory=None):
         inc[e[1]].append(e)
     fails = scn.get("fails", {})
     scopes = scn.get("scopes", {})
+    slow = scn.get("slow", {})
 
     def make_fn(i):
         spec = fails.get(str(i))
@@ -247,6 +248,8 @@ def build(scn, ctx, result_factory=None):
             if hook:
                 hook(i, a)
             ctx.in_call()  # the call takes time: other threads may run here
+            for _ in range(int(slow.get(str(i), 0))):
+                ctx.in_call()  # a slow call: many more opportunities for the others
             if spec and a <= spec["n"]:
                 exc = EXC_TYPES[spec["exc"]](f"fail n{i} a{a}")
                 b.raised.setdefault(i, []).append(exc)
